@@ -13,7 +13,7 @@ ABSENT = ["", "nope", "pYTK999", "a/b", "pYTK001.gb", "PYTK001"]
 def observe(reg, kind, extra=None, tagfn=None, absent=ABSENT):
     """complete observation of one registry -> Registry event"""
     from moclo.record import CircularRecord
-    ev = {"ev": "Registry", "kind": kind, "keys": [], "len": -1, "lookups": [], "absent": [], "expected": [], "members": []}
+    ev = {"ev": "Registry", "kind": kind, "keys": [], "len": -1, "lookups": [], "absent": [], "expected": [], "members": [], "dir": []}
     ev.update(extra or {})
     try:
         ev["keys"] = [str(k) for k in iter(reg)]
@@ -159,7 +159,11 @@ def filesystem_events(rng, q):
             with open(os.path.join(d, "table.csv"), "w") as f:
                 f.write("a,b\n")
             reg = FilesystemRegistry(d, ytk.YTKPart)
-            evs.append([observe(reg, "filesystem", {"expected": expected}, absent=ABSENT + ["nested", "subdir", "README", "inner"])])
+            listing = []
+            for name in sorted(os.listdir(d)):
+                stem, dot, ext = name.rpartition(".")
+                listing.append({"stem": stem if dot else name, "ext": ext if dot else "", "isdir": os.path.isdir(os.path.join(d, name))})
+            evs.append([observe(reg, "filesystem", {"expected": expected, "dir": listing}, absent=ABSENT + ["nested", "subdir", "README", "inner"])])
         finally:
             shutil.rmtree(d, ignore_errors=True)
     return evs
@@ -203,6 +207,8 @@ def run(tier, seed):
                  sigfn=lambda c, ev, tr: "%s|%s" % (c, ev["kind"]),
                  describe=lambda c, ev, tr: "%s: %s registry with keys %s len=%s; failing lookups %s; absent %s; expected %s" % (
                      c, ev["kind"], ev["keys"][:12], ev["len"], [x for x in ev["lookups"] if x["exc"] or x["id"] != x["key"]][:5], ev["absent"][:6], ev["expected"][:12]))
+    run.model_check("FsRegistry", "MC_FsRegistry.cfg", coverage=True)
+    run.model_check("FsRegistry", "Neg_FsRegistry.cfg", expect_violation="C20_ListingLookupCoherent")
     from .. import housekeeping
     housekeeping.run_into(run, 40 if q else 400)
     return run.finish("TLC: every sequence of <= %d additions of overlapping / repeated / nested members to a combined registry (KeysOnce, "
